@@ -187,7 +187,7 @@ WITNESSES = [
     {"id": "c16-lifetime-exclusive", "rule": "R-16.2", "file": "dns/resolver.py", "expect": "fires",
      "old": "        if duration >= lifetime:\n            raise LifetimeTimeout", "new": "        if duration > lifetime + 1:\n            raise LifetimeTimeout"},
     {"id": "c16-tcp-retry-always", "rule": "R-16.5", "file": "dns/resolver.py", "expect": "fires",
-     "old": "                if self.tcp_attempt:\n                    self.nameservers.remove(self.nameserver)\n                else:\n                    self.retry_with_tcp = True", "new": "                self.retry_with_tcp = True"},
+     "old": "                if self.tcp_attempt:\n                    # Truncation with TCP is no good!\n                    self.nameservers.remove(self.nameserver)\n                else:\n                    self.retry_with_tcp = True", "new": "                self.retry_with_tcp = True"},
     {"id": "c16-twin-comment-and-blank", "rule": "R-16.1", "file": "dns/asyncresolver.py", "expect": "silent",
      "old": "                if backoff:\n                    await backend.sleep(backoff)", "new": "                if backoff:\n                    # pause before re-arming the round\n                    await backend.sleep(backoff)"},
 ]
